@@ -1,0 +1,156 @@
+//! Observation hooks for the deterministic simulator kept in /verif.
+//!
+//! Compiled only with the `verif` cargo feature (off by default). Nothing here
+//! changes the behaviour of a transform: the hooks count events in a
+//! thread-local and, only if the simulator installed a callback on the current
+//! thread, call it at each element evaluation (the simulator uses that as a
+//! scheduling point and as its logical clock).
+
+use std::cell::RefCell;
+use std::io::{BufRead, Write};
+
+use crate::context::TransformerContext;
+use crate::errors::Result;
+use crate::transform::Transformer;
+use crate::TransformConfig;
+
+/// State observed during / after one transform on the current thread.
+#[derive(Clone, Debug, Default, PartialEq, Eq)]
+pub struct Probe {
+    /// scope stack height when the transform returned
+    pub scope_height: usize,
+    /// element stack height when the transform returned
+    pub element_height: usize,
+    /// depth counter when the transform returned
+    pub depth: u32,
+    /// `in_specs` flag when the transform returned
+    pub in_specs: bool,
+    /// number of draws from the document PRNG
+    pub rng_calls: u64,
+    /// element evaluation attempts made by the retry work-list
+    pub attempts: u64,
+    /// attempts which returned an error (and so were queued for retry)
+    pub failed_attempts: u64,
+    /// failed attempts after which (scope height, element height, depth) differed
+    /// from their values before the attempt
+    pub dirty_failures: u64,
+    /// attempts (failed or not) after which those values differed
+    pub dirty_attempts: u64,
+    /// failed attempts made while a scope-introducing element was open
+    pub failures_in_scope: u64,
+    /// largest depth counter value seen at an attempt
+    pub max_depth: u32,
+}
+
+/// Where a callback is invoked from.
+#[derive(Clone, Copy, Debug, PartialEq, Eq)]
+pub enum Site {
+    /// about to evaluate an element of a work-list
+    ElemEnter,
+    /// element evaluation returned (`ok` tells how)
+    ElemExit { ok: bool },
+}
+
+pub type Callback = Box<dyn FnMut(Site)>;
+
+#[derive(Default)]
+struct State {
+    probe: Probe,
+    callback: Option<Callback>,
+    stack: Vec<(usize, usize, u32)>,
+}
+
+thread_local! {
+    static STATE: RefCell<State> = RefCell::new(State::default());
+}
+
+/// Install (or remove) the callback of the current thread.
+pub fn set_callback(cb: Option<Callback>) {
+    STATE.with(|s| s.borrow_mut().callback = cb);
+}
+
+/// Reset the counters of the current thread.
+pub fn reset() {
+    STATE.with(|s| {
+        let mut s = s.borrow_mut();
+        s.probe = Probe::default();
+        s.stack.clear();
+    });
+}
+
+/// Counters of the current thread since the last `reset()`.
+pub fn counters() -> Probe {
+    STATE.with(|s| s.borrow().probe.clone())
+}
+
+fn call(site: Site) {
+    // take the callback out while it runs so it may itself use this module
+    let cb = STATE.with(|s| s.borrow_mut().callback.take());
+    if let Some(mut cb) = cb {
+        cb(site);
+        STATE.with(|s| {
+            let mut s = s.borrow_mut();
+            if s.callback.is_none() {
+                s.callback = Some(cb);
+            }
+        });
+    }
+}
+
+pub(crate) fn elem_enter(context: &TransformerContext) {
+    let h = context.verif_heights();
+    STATE.with(|s| {
+        let mut s = s.borrow_mut();
+        s.probe.attempts += 1;
+        s.probe.max_depth = s.probe.max_depth.max(h.2);
+        s.stack.push((h.0, h.1, h.2));
+    });
+    call(Site::ElemEnter);
+}
+
+pub(crate) fn elem_exit(context: &TransformerContext, ok: bool) {
+    let h = context.verif_heights();
+    STATE.with(|s| {
+        let mut s = s.borrow_mut();
+        if let Some(before) = s.stack.pop() {
+            let dirty = before != (h.0, h.1, h.2);
+            if dirty {
+                s.probe.dirty_attempts += 1;
+            }
+            if !ok {
+                s.probe.failed_attempts += 1;
+                if dirty {
+                    s.probe.dirty_failures += 1;
+                }
+                if before.1 > 0 {
+                    s.probe.failures_in_scope += 1;
+                }
+            }
+        }
+    });
+    call(Site::ElemExit { ok });
+}
+
+pub(crate) fn rng_tick() {
+    STATE.with(|s| s.borrow_mut().probe.rng_calls += 1);
+}
+
+/// As `transform_stream()`, additionally returning the `Probe` of the run,
+/// including the end state of the (otherwise private) context - whether the
+/// transform succeeded or not.
+pub fn transform_stream_probed(
+    reader: &mut dyn BufRead,
+    writer: &mut dyn Write,
+    config: &TransformConfig,
+) -> (Result<()>, Probe) {
+    reset();
+    let mut t = Transformer::from_config(config);
+    let res = t.transform(reader, writer);
+    let h = t.context.verif_heights();
+    let mut probe = counters();
+    probe.scope_height = h.0;
+    probe.element_height = h.1;
+    probe.depth = h.2;
+    probe.in_specs = h.3;
+    (res, probe)
+}
